@@ -137,6 +137,14 @@ Definition match_apply {A} (r : fres) (vals : list A) : list A * bool :=
   else if negb (match_any n r) then ([], false)
   else let kept := keep (match_test n r) vals 0 in (kept, negb (is_nil kept)).
 
+(** Filter.Match / Filter.Apply over the result as state: (result afterwards,
+    answer).  Match hands the result back as it received it; Apply rewrites
+    the measurements (res.Values). *)
+Definition filter_match (f : filter) (r : fresult) : fresult * fres := (r, eval f r).
+Definition filter_apply (f : filter) (r : fresult) : fresult * bool :=
+  let '(kept, ret) := match_apply (eval f r) (fr_units r) in
+  (mkRes (fr_name r) (fr_cfg r) kept, ret).
+
 (** ** specification: ordinary boolean semantics, per measurement *)
 Definition unit_hit (m : matcher) (u : bytes * bytes) : bool :=
   matches m (fst u) || (negb (is_nil (snd u)) && matches m (snd u)).
@@ -177,6 +185,15 @@ Fixpoint wrap (all_keys : list bytes) (ps : list (list pfield)) (r : fresult) (i
   end.
 
 End Eval.
+
+(** specification of the fixed-list filters: a field with a fixed order keeps
+    the result iff its PROJECTED value is one of the listed words; other
+    fields keep everything; a group of projections keeps what all its fields keep *)
+Definition field_keeps (all_keys : list bytes) (p : pfield) (r : fresult) : bool :=
+  negb (beq (pf_order p) ord_fixed)
+  || existsb (beq (proj_value all_keys (pf_key p) r)) (pf_fixed p).
+Definition fixed_keeps (all_keys : list bytes) (ps : list (list pfield)) (r : fresult) : bool :=
+  forallb (fun p => field_keeps all_keys p r) (concat ps).
 
 (** keys that the parser records as excluded from .fullname *)
 Definition fullname_keys (ps : list (list pfield)) : list bytes :=
